@@ -16,7 +16,7 @@ Local Arguments follows_part : simpl never.
 Definition is_sync (f : func) : bool := match f_kind f with KSync => true | _ => false end.
 
 Definition instr_log (sync : bool) (c : collector) (args : N -> N) (sp : spanspec) (fo : option (list N))
-           (l1 : list entry) (t1 lv1 : list N) : list entry :=
+           (l1 : list entry) (t1 lv1 : list N) (r1 : result) : list entry :=
   let on := span_on c (sp_level sp) in
   if sync then
     (if static_on c (sp_level sp)
@@ -25,7 +25,7 @@ Definition instr_log (sync : bool) (c : collector) (args : N -> N) (sp : spanspe
     ++ l1 ++ (if on then [TExit; TClose] else []) ++ map EXDrop t1 ++ map EXDrop (rev lv1)
   else if on then
     span_create args sp ++ follows_part fo true ++ wrap_polls (l1 ++ map EXDrop t1)
-      ++ [TEnter; TExit; TClose] ++ map EXDrop (rev lv1)
+      ++ instr_drop r1 ++ map EXDrop (rev lv1)
   else l1 ++ map EXDrop t1 ++ map EXDrop (rev lv1).
 
 Definition is_pre0 (e : entry) : bool := match e with EXDrop _ | ECreated => true | _ => false end.
@@ -36,7 +36,7 @@ Lemma run_instr_struct c args f sp fo e :
     /\ Forall (fun x => is_pre0 x = true) pre0
     /\ run c args f (TInstr sp fo e)
        = let '(l1, lv1, r1, t1) := texec c args f e (filter keep (all_owned f)) in
-         (pre0 ++ instr_log (is_sync f) c args sp fo l1 t1 lv1, r1).
+         (pre0 ++ instr_log (is_sync f) c args sp fo l1 t1 lv1 r1, r1).
 Proof.
   unfold run, is_sync. destruct (f_kind f).
   - exists (fun _ => true), []. split; [intros p _; reflexivity|]. split; [constructor|].
@@ -140,7 +140,7 @@ Lemma field_eval_attr args fs :
 Proof.
   destruct fs as [p pa | cf]; simpl.
   - destruct (p_rtype pa), (p_ty pa); simpl; split; repeat constructor.
-  - destruct (cf_expr cf); simpl; split; repeat constructor.
+  - destruct (cf_expr cf) as [? ?|? ?|? ?| |? [| | |]]; simpl; split; repeat constructor.
 Qed.
 
 Lemma span_pre_attr args sp : Forall (fun e => is_attr_eval e = true) (span_pre args sp).
@@ -201,11 +201,11 @@ Proof.
   - rewrite scan_app, (scan_out _ (span_create_out _ _)).
     rewrite scan_app, (scan_out _ (follows_out _ _)).
     rewrite scan_app, scan_wrap by (apply Forall_app; split; [assumption | apply inner_ok_xdrops]).
-    simpl. apply scan_out, xdrops_out.
+    destruct r1; simpl; apply scan_out, xdrops_out.
   - rewrite scan_app, (scan_out _ (span_create_out _ _)).
     rewrite scan_app, (scan_out _ (follows_out _ _)).
     rewrite scan_app, scan_wrap by (apply Forall_app; split; [assumption | apply inner_ok_xdrops]).
-    simpl. apply scan_out, xdrops_out.
+    destruct r1; simpl; apply scan_out, xdrops_out.
 Qed.
 
 Theorem body_inside_thm : forall c args f a,
@@ -253,9 +253,9 @@ Proof.
     exists pre0, ([TEnter] ++ l1 ++ [TExit; TClose] ++ map EXDrop t1 ++ map EXDrop (rev lv1)).
     split; [now rewrite <- !app_assoc|]. split; [now apply bracket_pre0|].
     repeat (apply Forall_app; split); auto using bracket_inner, bracket_xdrops; repeat constructor.
-  - exists pre0, (wrap_polls (l1 ++ map EXDrop t1) ++ [TEnter; TExit; TClose] ++ map EXDrop (rev lv1)).
+  - exists pre0, (wrap_polls (l1 ++ map EXDrop t1) ++ instr_drop r1 ++ map EXDrop (rev lv1)).
     split; [reflexivity|]. split; [now apply bracket_pre0|].
-    repeat (apply Forall_app; split); auto using bracket_xdrops; try (repeat constructor; fail).
+    repeat (apply Forall_app; split); auto using bracket_xdrops; try (destruct r1; repeat constructor; fail).
     apply bracket_wrap. apply Forall_app; split; auto using bracket_inner, bracket_xdrops.
 Qed.
 
@@ -322,7 +322,7 @@ Lemma custom_names args cfs :
   map fst (flat_map snd (map (field_eval args) (map FsCustom cfs))) = map cf_name (filter has_value cfs).
 Proof.
   induction cfs as [|cf cfs IH]; simpl; [reflexivity|].
-  rewrite map_app, IH. unfold has_value. destruct (cf_expr cf); reflexivity.
+  rewrite map_app, IH. unfold has_value. destruct (cf_expr cf) as [? ?|? ?|? ?| |? [| | |]]; reflexivity.
 Qed.
 
 Lemma auto_fields_no_feval args a : forall ps i,
@@ -342,7 +342,7 @@ Lemma custom_feval args cfs :
 Proof.
   induction cfs as [|cf cfs [IH1 IH2]]; simpl; [split; reflexivity|].
   rewrite !filter_app, IH1, IH2, map_app. unfold eval_index.
-  destruct (cf_expr cf); split; reflexivity.
+  destruct (cf_expr cf) as [? ?|? ?|? ?| |? [| | |]]; split; reflexivity.
 Qed.
 
 Lemma span_create_feval args a f :
@@ -371,7 +371,7 @@ Lemma field_eval_no_peval args fs :
 Proof.
   destruct fs as [p pa | cf]; simpl.
   - destruct (p_rtype pa), (p_ty pa); simpl; split; repeat constructor.
-  - destruct (cf_expr cf); simpl; split; repeat constructor.
+  - destruct (cf_expr cf) as [? ?|? ?|? ?| |? [| | |]]; simpl; split; repeat constructor.
 Qed.
 Lemma span_pre_peval args sp : filter is_peval (span_pre args sp) = parent_eval (sp_parent sp).
 Proof.
@@ -459,20 +459,21 @@ Proof.
       repeat rewrite ?filter_app, ?X, ?S, ?F; simpl; rewrite ?app_nil_r; exact He.
   - destruct (span_on c (sp_level sp)).
     + repeat rewrite ?filter_app, ?X, ?S, ?F. rewrite wrap_filter by reflexivity.
-      rewrite filter_app, X. simpl. rewrite ?app_nil_r. exact He.
+      rewrite filter_app, X. replace (filter is_event (instr_drop r1)) with (@nil entry) by (destruct r1; reflexivity).
+      simpl. rewrite ?app_nil_r. exact He.
     + repeat rewrite ?filter_app, ?X. rewrite ?app_nil_r. exact He.
 Qed.
 
 Lemma tevents_expand_sync c a r : tevents c (expand_sync a) r = expected_events c a r.
 Proof.
   unfold expand_sync, expected_events.
-  destruct (a_err a) as [ee|], (a_ret a) as [re|]; simpl; destruct r as [v|k]; try reflexivity;
+  destruct (a_err a) as [ee|], (a_ret a) as [re|]; simpl; destruct r as [v|k|]; try reflexivity;
     try (destruct v; reflexivity).
 Qed.
 Lemma tevents_expand_async c a r : tevents c (expand_async a) r = expected_events c a r.
 Proof.
   unfold expand_async, expected_events.
-  destruct (a_err a) as [ee|], (a_ret a) as [re|]; simpl; destruct r as [v|k]; try reflexivity;
+  destruct (a_err a) as [ee|], (a_ret a) as [re|]; simpl; destruct r as [v|k|]; try reflexivity;
     try (destruct v; reflexivity).
 Qed.
 
@@ -481,4 +482,18 @@ Theorem ret_err_thm : forall c args f a,
 Proof.
   intros. unfold expand. rewrite events_any.
   destruct (f_kind f); auto using tevents_expand_sync, tevents_expand_async.
+Qed.
+
+(** ** Cancellation (a future dropped while suspended): a corollary of the clauses above, since the await site at
+    which the caller drops the future is part of [args] *)
+Theorem cancellation_thm : forall c args f a,
+  snd (run c args f TPlain) = RCancelled ->
+  snd (run c args f (expand a f)) = RCancelled
+  /\ filter is_event (fst (run c args f (expand a f))) = []
+  /\ own_effects (fst (run c args f (expand a f))) = own_effects (fst (run c args f TPlain))
+  /\ Permutation (xdrops (fst (run c args f (expand a f)))) (xdrops (fst (run c args f TPlain))).
+Proof.
+  intros c args f a H. destruct (erase_thm c args f a) as (E1 & E2 & E3).
+  rewrite H in E1. repeat split; auto.
+  rewrite ret_err_thm, E1. reflexivity.
 Qed.
